@@ -1,1 +1,137 @@
 # further protosim schemes (registered into protosim.SCHEMES)
+from . import protosim as P
+from .protosim import Spec, SCHEMES, sint
+
+
+KEYFIELDS = {'pk', 'z', 'x', 'y', 'g', 'mpk', 'pp', 'pk0', 'pk1', 'pk2', 'y0', 'y1', 'y2', 'z0', 'z1'}
+
+
+def sig_oracle(modn=(), int_msg=False, blocks=False, ok_malleations=(), extra=None, vers=('ver',)):
+    """Metamorphic signature oracle with scheme-specific notions of 'the same value':
+    modn     fields that are scalars of Z_r (message scalars, commitment openings): equal iff equal mod r
+    int_msg  the message bytes are read as one big-endian integer mod r (no hashing)
+    blocks   the message is split in l blocks, each read as an integer mod r"""
+
+    def oracle(s, ctx, v, out):
+        n = ctx['param']['n']
+        if any(x not in s.ver for x in vers):
+            return
+        got = s.ver[vers[0]]
+        und = s.undamaged_decode_failed()
+        if und:
+            v.bad('undamaged-decode-failed', 'field %s arrived intact but did not decode' % und)
+            return
+        if got == 'decode-failed':
+            out.keys.add((s.scheme, 'decode-failed', tuple(s.faults())))
+            return
+        pre = s.opts.get('hash') == '1'
+
+        def changed(f):
+            r = s.m[f]
+            if r['dec'] != 'ok':
+                return True
+            if f in modn and r['type'] == 'bn':
+                return sint(r['val']) % n != int.from_bytes(r['orig'], 'big') % n
+            if f == 'msg' and (int_msg or (pre and s.scheme in ('bbs', 'zss'))):
+                a, b = r['sent'], r['orig']
+                if blocks:
+                    l = max(1, min(3, int(s.opts.get('k', 1))))
+
+                    def split(m):
+                        part = len(m) // l
+                        return [int.from_bytes(m[i * part:(len(m) if i == l - 1 else (i + 1) * part)], 'big') % n for i in range(l)]
+                    return split(a) != split(b)
+                return int.from_bytes(a, 'big') % n != int.from_bytes(b, 'big') % n
+            return s.changed(f)
+
+        ch = [f for f in s.m if changed(f)]
+        # a Z_r scalar sent as x + r: equivalent by the scheme's definition, but a verifier may also
+        # insist on the reduced form - nothing asserted
+        if any(f in modn and s.m[f]['kind'] in ('v_addord', 'v_ord') for f in s.m):
+            out.probe('message-scalar-plus-order')
+            return
+        out.evals += 1
+        out.keys.add((s.scheme, tuple(s.faults()), got, bool(ch), s.opts.get('hash'), s.opts.get('pack')))
+        if 'rerandomised' in s.notes:
+            out.probe('legal-malleation')
+        if 'statements-swapped' in s.notes:
+            ch.append('stmt')
+        if any(f in KEYFIELDS for f in ch) and any(f not in KEYFIELDS for f in ch) and s.scheme not in ('pokor', 'sokor'):
+            # the adversary replaced key material and signature together: the result may be a valid
+            # triple under the substituted key (e.g. z := 1 with sig := identity); nothing asserted
+            out.probe('key-and-signature-both-substituted')
+            return
+        kinds = tuple(sorted('%s:%s' % (f, s.m[f]['kind']) for f in ch if f in s.m))
+        if ch and kinds in ok_malleations:
+            out.probe('legal-malleation')
+            if got != '1':
+                v.bad('expected=accept|got=reject', 'a legal malleation was rejected')
+            return
+        if not ch:
+            if got != '1':
+                v.bad('expected=accept|got=reject', 'every field arrived with its value unchanged%s but verification failed' % (
+                    ' (after a legal re-randomisation)' if 'rerandomised' in s.notes else ''))
+        else:
+            out.fault('altered-authenticated-field')
+            if got == '1':
+                v.bad('expected=reject|got=accept', 'verification accepted although %s changed in value' % ch)
+        for other in vers[1:]:
+            if s.ver[other] != got:
+                v.bad('equivalent-verifiers-disagree', '%s says %s, %s says %s' % (vers[0], got, other, s.ver[other]))
+        if extra:
+            extra(s, ctx, v, out)
+    return oracle
+
+
+def nosub(field):
+    def extra(s, ctx, v, out):
+        r = s.m.get(field)
+        if r and r['kind'] == 'v_nosub' and r['dec'] == 'ok' and r.get('insub') == '0':
+            out.fault('public-key-outside-subgroup')
+            if s.ver.get('ver') == '1':
+                v.bad('%s:v_nosub|expected=reject|got=accept' % field, 'a public key outside the order-r subgroup was accepted')
+    return extra
+
+
+# Schemes that read the message as an integer of Z_r: a zero message (or block) leaves part of the key
+# unauthenticated by the scheme's definition, so messages are random and at least 8 bytes per block.
+def lopt(rng):
+    return dict(k=rng.randint(1, 3), mlen=rng.choice([24, 31, 32, 33, 64, 96, 100]), mkind='rand')
+
+
+def imsg(rng):
+    return dict(mlen=rng.choice([8, 16, 31, 32, 33, 64, 100, 140]), mkind='rand')
+
+
+RER = [('sig', 'v_rerand')]
+
+SCHEMES.update({
+    'bbs': Spec('C05', 4, dict(pk='g2', z='gt', sig='g1', msg='bytes'), sig_oracle(), pc=True,
+                opts=lambda rng: dict(hash=rng.below(2), mlen=rng.choice([0, 1, 20, 31, 32, 33, 64, 100, 129]))),
+    'zss': Spec('C05', 4, dict(pk='g1', z='gt', sig='g2', msg='bytes'), sig_oracle(), pc=True,
+                opts=lambda rng: dict(hash=rng.below(2), mlen=rng.choice([0, 1, 20, 31, 32, 33, 64, 100, 129]))),
+    'cls': Spec('C05', 4, dict(x='g2', y='g2', a='g1', b='g1', c='g1', msg='bytes'), sig_oracle(int_msg=True), pc=True,
+                opts=imsg, extra_faults=RER),
+    'cli': Spec('C05', 4, dict(x='g2', y='g2', z='g2', a='g1', A='g1', b='g1', B='g1', c='g1', r='bn', msg='bytes'),
+                sig_oracle(int_msg=True, modn=('r',)), pc=True, opts=imsg),
+    'clb': Spec('C05', 4, dict(x='g2', y='g2', a='g1', b='g1', c='g1', msg='bytes'),
+                sig_oracle(int_msg=True, blocks=True), pc=True, opts=lopt,
+                extra_faults=[('z0', 'v_dbl'), ('A0', 'v_rand'), ('B0', 'flip'), ('z0', 'flip'), ('A1', 'v_neg'), ('B1', 'v_dbl')]),
+    'pss': Spec('C05', 4, dict(g='g2', x='g2', y='g2', a='g1', b='g1', m='bn'), sig_oracle(modn=('m',)), pc=True,
+                opts=imsg, extra_faults=RER),
+    'psb': Spec('C05', 4, dict(g='g2', x='g2', y0='g2', a='g1', b='g1', m0='bn'), sig_oracle(modn=('m0', 'm1', 'm2')), pc=True,
+                opts=lambda rng: dict(k=rng.randint(1, 3))),
+    'vbnn': Spec('C05', 5, dict(mpk='ec', R='ec', z='bn', h='bn', id='bytes', msg='bytes'), sig_oracle()),
+    'pokdl': Spec('C05', 4, dict(y='ec', c='bn', r='bn'), sig_oracle(), weight=6),
+    'sokdl': Spec('C05', 4, dict(y='ec', c='bn', r='bn', msg='bytes'), sig_oracle(), weight=6),
+    'pokor': Spec('C05', 4, dict(y0='ec', y1='ec', c0='bn', c1='bn', r0='bn', r1='bn'), sig_oracle(), weight=6,
+                  opts=lambda rng: dict(cls=rng.below(2)), extra_faults=[('stmt', 'v_swap')]),
+    'sokor': Spec('C05', 4, dict(y0='ec', y1='ec', c0='bn', c1='bn', r0='bn', r1='bn', msg='bytes'), sig_oracle(), weight=6,
+                  opts=lambda rng: dict(cls=rng.below(2)), extra_faults=[('stmt', 'v_swap')]),
+    'ers': Spec('C05', 5, dict(pp='ec', td='bn', h0='ec', pk0='ec', c00='bn', c01='bn', r00='bn', r01='bn', pk1='ec', c10='bn',
+                               r11='bn', msg='bytes'), sig_oracle(),
+                opts=lambda rng: dict(k=rng.randint(1, 3))),
+    'mklhs': Spec('C05', 5, dict(pk0='g2', pk1='g2', sig='g1', m='bn', mu0='bn', mu1='bn'),
+                  sig_oracle(modn=('m', 'mu0', 'mu1'), vers=('ver', 'onv')), pc=True,
+                  opts=lambda rng: dict(ord=rng.below(1 << 16))),
+})
